@@ -10,7 +10,16 @@ import (
 )
 
 func typeShort(t types.Type) string {
-	return types.TypeString(t, func(p *types.Package) string { return strings.TrimPrefix(p.Path(), modPrefix) })
+	s := types.TypeString(t, func(p *types.Package) string { return strings.TrimPrefix(p.Path(), modPrefix) })
+	return aliasRe.ReplaceAllStringFunc(s, func(m string) string {
+		switch m {
+		case "byte":
+			return "uint8"
+		case "rune":
+			return "int32"
+		}
+		return "interface{}"
+	})
 }
 
 // staticClosure resolves `f := func(){...}; f()` patterns: a call through a
